@@ -284,5 +284,94 @@ theorem minimiseCore_minimal {X : Type} [DecidableEq X] (f : List Q → X)
     have hs : SameIn A B q q' := ⟨t, t', hq, hq', by rw [htb, htb']⟩
     rw [← e1, ← e2, clsTuple_congr st q q' (hp.resp q q' hs)]
 
+/-! ### `reduce` returns a trim automaton -/
+
+theorem rule_of_run (A : DFTA σ Q) (t : Tree σ) (q : Q) (h : run A t = some q) :
+    ∃ l args, ((l, args), q) ∈ A.rules := by
+  cases t with
+  | node l ks =>
+    rw [run_node] at h
+    cases hqs : runList A ks with
+    | none => rw [hqs] at h; cases h
+    | some qs =>
+      rw [hqs] at h
+      exact ⟨l, qs, AList.lookup_some_mem h⟩
+
+theorem mem_allStates_iff (A : DFTA σ Q) (q : Q) :
+    q ∈ allStates A ↔ (∃ l args d, ((l, args), d) ∈ A.rules ∧ (q = d ∨ q ∈ args)) ∨ q ∈ A.finals := by
+  unfold allStates
+  simp only [List.mem_append, List.mem_flatMap, List.mem_cons]
+  constructor
+  · rintro (⟨⟨⟨l, args⟩, d⟩, hr, h⟩ | h)
+    · exact Or.inl ⟨l, args, d, hr, h⟩
+    · exact Or.inr h
+  · rintro (⟨l, args, d, hr, h⟩ | h)
+    · exact Or.inl ⟨_, hr, h⟩
+    · exact Or.inr h
+
+theorem allReach_removeUnreachable (A : DFTA σ Q) (hd : A.Det) : AllReach (removeUnreachable A) := by
+  have hst : ∀ q, q ∈ A.states → q ∈ (removeUnreachable A).states := by
+    intro q hq
+    obtain ⟨t, ht⟩ := (mem_states_iff A hd q).mp hq
+    exact mem_states_of_run _ (removeUnreachable_det A hd) t q (by rw [run_removeUnreachable A hd]; exact ht)
+  intro q hq
+  apply hst
+  rcases (mem_allStates_iff _ q).mp hq with ⟨l, args, d, hr, h⟩ | h
+  · have := (List.mem_filter.mp hr).2
+    simp only [Bool.and_eq_true, decide_eq_true_eq, List.all_eq_true] at this
+    rcases h with e | e
+    · rw [e]; exact this.1
+    · exact this.2 q e
+  · have := (List.mem_filter.mp h).2
+    simpa using this
+
+theorem productive_removeUnproductive (A : DFTA σ Q) (q : Q) :
+    q ∈ (removeUnproductive A).productive ↔ q ∈ A.productive := by
+  have h21 : ∀ q ∈ (removeUnproductive A).productive, q ∈ A.productive := by
+    refine (productive_spec (removeUnproductive A) (fun q => q ∈ A.productive) ?_ ?_).1.2.2.1
+    · intro q hq; exact finals_subset_productive A q hq
+    · intro l args d hr hdp a ha
+      exact productive_closed A (List.mem_filter.mp hr).1 hdp a ha
+  have h12 : ∀ q ∈ A.productive, q ∈ (removeUnproductive A).productive := by
+    refine (productive_spec A (fun q => q ∈ (removeUnproductive A).productive) ?_ ?_).1.2.2.1
+    · intro q hq; exact finals_subset_productive (removeUnproductive A) q hq
+    · intro l args d hr hdp a ha
+      have hr' : ((l, args), d) ∈ (removeUnproductive A).rules :=
+        List.mem_filter.mpr ⟨hr, by simpa using h21 d hdp⟩
+      exact productive_closed _ hr' hdp a ha
+  exact ⟨h21 q, h12 q⟩
+
+theorem trim_removeUnproductive (A : DFTA σ Q) (hd : A.Det) (hall : AllReach A) :
+    Trim (removeUnproductive A) := by
+  have hd2 := removeUnproductive_det A hd
+  -- a productive reachable state of `A` is still reachable
+  have hkeep : ∀ q, q ∈ A.states → q ∈ A.productive → q ∈ (removeUnproductive A).states := by
+    intro q hq hp
+    obtain ⟨t, ht⟩ := (mem_states_iff A hd q).mp hq
+    apply mem_states_of_run _ hd2 t q
+    apply run_restrict A (removeUnproductive A) (fun q => q ∈ A.productive) _ t q ht hp
+    intro l qs q' hr hp'
+    refine ⟨productive_closed A (AList.lookup_some_mem hr) hp', ?_⟩
+    apply (AList.lookup_filter _ _ hd _ _).mpr
+    exact ⟨hr, by simpa using hp'⟩
+  constructor
+  · intro q hq
+    rcases (mem_allStates_iff _ q).mp hq with ⟨l, args, d, hr, h⟩ | h
+    · obtain ⟨hr1, hr2⟩ := List.mem_filter.mp hr
+      have hdp : d ∈ A.productive := by simpa using hr2
+      rcases h with e | e
+      · rw [e]; exact hkeep d (hall d (mem_allStates_of_rule A hr1).1) hdp
+      · exact hkeep q (hall q ((mem_allStates_of_rule A hr1).2 q e)) (productive_closed A hr1 hdp q e)
+    · exact hkeep q (hall q (List.mem_append_right _ h)) (finals_subset_productive A q h)
+  · intro q hq
+    rw [productive_removeUnproductive]
+    obtain ⟨t, ht⟩ := (mem_states_iff _ hd2 q).mp hq
+    obtain ⟨l, args, hr⟩ := rule_of_run _ t q ht
+    simpa using (List.mem_filter.mp hr).2
+
+/-- `reduce` returns a trim automaton: all states reachable and productive -/
+theorem trim_reduce (A : DFTA σ Q) (hd : A.Det) : Trim (reduce A) :=
+  trim_removeUnproductive _ (removeUnreachable_det A hd) (allReach_removeUnreachable A hd)
+
 end DFTA
 end PS
